@@ -9,19 +9,28 @@ namespace GocoinV.Proofs.C17Block
 open GocoinV GocoinV.Model.Balances GocoinV.Model.BalancesBlock GocoinV.Proofs.C17
 open GocoinV.Gen.UtxoNotifyFacts
 
-/-- What decides whether lib/utxo calls the index callbacks, in the generator's canonical form (field paths rooted in the
-    type of the receiver / parameter, locals and parameters of closures / non-entry functions resolved, per entry point
-    through which the call is reached). Stops compiling when a guard starts to look at anything else — the block's
-    height, the best known header, the unwind buffer, whether undo data is kept, a property of the record. -/
+/-- What decides whether lib/utxo calls the index callbacks, what it hands to them and where the installed callbacks can
+    change, in the generator's canonical form (field paths rooted in the type of the receiver / parameter; a local stands for
+    every value written to it and the conditions around those writes; parameters of closures / non-entry functions are
+    resolved; per entry point through which the call is reached). Stops compiling when the sets change. -/
 theorem notify_facts :
     notifyAddGuards =
       [("UnspentDB.CommitBlockTxs", ["BlockChanges.AddList", "UnspentDB.CB.NotifyTxAdd"]),
-       ("UnspentDB.UndoBlockTxs", ["UnspentDB.CB.NotifyTxAdd", "UnspentDB.LastBlockHeight", "UnspentDB.dir_undo",
-          "fmt.Sprint()", "os.ReadFile()"])] ∧
+       ("UnspentDB.UndoBlockTxs", ["FullUtxoRec()", "UnspentDB.CB.NotifyTxAdd", "UnspentDB.LastBlockHeight", "UnspentDB.dir_undo",
+          "btc.VLen()", "fmt.Sprint()", "os.ReadFile()"])] ∧
     notifyDelGuards =
       [("UnspentDB.CommitBlockTxs", ["BlockChanges.DeledTxs", "UnspentDB.CB.NotifyTxDel", "UnspentDB.HashMap", "bytes.Equal()"]),
        ("UnspentDB.UndoBlockTxs", ["UnspentDB.CB.NotifyTxDel", "UnspentDB.HashMap", "btc.Block.Txs", "btc.Block.Txs.Hash.Hash",
-          "bytes.Equal()"])] := by
+          "bytes.Equal()"])] ∧
+    notifyAddArgs =
+      [("UnspentDB.CommitBlockTxs", ["BlockChanges.AddList"]),
+       ("UnspentDB.UndoBlockTxs", ["FullUtxoRec()", "UnspentDB.LastBlockHeight", "UnspentDB.dir_undo", "btc.VLen()",
+          "fmt.Sprint()", "os.ReadFile()"])] ∧
+    notifyDelArgs =
+      [("UnspentDB.CommitBlockTxs", ["BlockChanges.DeledTxs", "NewUtxoRec()", "UnspentDB.HashMap"]),
+       ("UnspentDB.UndoBlockTxs", ["NewUtxoRec()", "UnspentDB.CB.NotifyTxDel", "UnspentDB.HashMap", "btc.Block.Txs",
+          "btc.Block.Txs.TxOut"])] ∧
+    callbackWrites = ["NewUnspentDb: UnspentDB.CB = {NewUnspentOpts.CB}"] := by
   decide
 
 theorem run_append (H : Bytes → Nat) (s : State) (a b : List Ev) : run H s (a ++ b) = run H (run H s a) b := by
